@@ -53,14 +53,45 @@ fn text_view(e: &syn::Expr) -> &syn::Expr {
     }
 }
 
-fn match_on_self(f: &syn::ImplItemFn) -> Option<&syn::ExprMatch> {
-    // the body is one `match self { .. }` / `match *self { .. }`
-    let stmts = &f.block.stmts;
-    let e = match stmts.as_slice() {
-        [syn::Stmt::Expr(e, None)] => e,
-        [syn::Stmt::Expr(syn::Expr::Return(r), _)] => r.expr.as_deref()?,
-        _ => return None,
-    };
+/// the body as ONE expression: plain `let x = E;` statements substituted into what follows
+fn body_expr(b: &syn::Block) -> Option<syn::Expr> {
+    struct Sub {
+        name: String,
+        with: syn::Expr,
+    }
+    impl syn::visit_mut::VisitMut for Sub {
+        fn visit_expr_mut(&mut self, e: &mut syn::Expr) {
+            if ident_of(e).as_deref() == Some(self.name.as_str()) {
+                *e = syn::Expr::Paren(syn::ExprParen { attrs: vec![], paren_token: Default::default(), expr: Box::new(self.with.clone()) });
+                return;
+            }
+            syn::visit_mut::visit_expr_mut(self, e);
+        }
+    }
+    let mut stmts: Vec<syn::Stmt> = b.stmts.clone();
+    while stmts.len() > 1 {
+        let (name, init) = match &stmts[0] {
+            syn::Stmt::Local(l) => {
+                let (n, _, v) = crate::mini::plain_let(l)?;
+                (n, v.clone())
+            }
+            _ => return None,
+        };
+        let mut s = Sub { name, with: init };
+        for st in stmts[1..].iter_mut() {
+            syn::visit_mut::VisitMut::visit_stmt_mut(&mut s, st);
+        }
+        stmts.remove(0);
+    }
+    match stmts.first()? {
+        syn::Stmt::Expr(syn::Expr::Return(r), _) => r.expr.as_deref().cloned(),
+        syn::Stmt::Expr(e, None) => Some(e.clone()),
+        _ => None,
+    }
+}
+
+/// `match self { .. }` / `match *self { .. }`, possibly wrapped as `Some(match self { .. })`: (the match, wrapped in Some)
+fn match_on_self(e: &syn::Expr) -> Option<(&syn::ExprMatch, bool)> {
     match strip(e) {
         syn::Expr::Match(m) => {
             let scrut = match strip(&m.expr) {
@@ -68,11 +99,15 @@ fn match_on_self(f: &syn::ImplItemFn) -> Option<&syn::ExprMatch> {
                 x => x,
             };
             if ident_of(scrut).as_deref() == Some("self") {
-                Some(m)
+                Some((m, false))
             } else {
                 None
             }
         }
+        syn::Expr::Call(c) if canon(&c.func) == "Some" && c.args.len() == 1 => match match_on_self(&c.args[0]) {
+            Some((m, false)) => Some((m, true)),
+            _ => None,
+        },
         _ => None,
     }
 }
@@ -118,9 +153,13 @@ pub fn extract(srcs: &Sources) -> R<String> {
                     _ => continue,
                 };
                 let name = m.sig.ident.to_string();
-                let mm = match match_on_self(m) {
+                let body = match body_expr(&m.block) {
+                    Some(b) => b,
+                    None => return fail(file, &format!("{TY}::{name}"), "plain `let`s and a tail expression"),
+                };
+                let (mm, in_some) = match match_on_self(&body) {
                     Some(x) => x,
-                    None => return fail(file, &format!("{TY}::{name}"), "a body `match self { .. }`"),
+                    None => return fail(file, &format!("{TY}::{name}"), "a body `match self { .. }` (possibly `Some(match self { .. })`, possibly through a `let`)"),
                 };
                 for a in &mm.arms {
                     if a.guard.is_some() {
@@ -140,7 +179,14 @@ pub fn extract(srcs: &Sources) -> R<String> {
                         secret_arms.push((v, shown));
                     } else if name == "type_hint" {
                         let body = strip(&a.body);
-                        let r = if canon(body) == "None" {
+                        let lit_of = |x: &syn::Expr| -> Option<String> {
+                            let x = text_view(x);
+                            crate::mini::str_lit(x).or_else(|| crate::mini::last_segment(x).and_then(|n| consts.get(&n).cloned()))
+                        };
+                        let r = if in_some {
+                            // `Some(match self { V(_) => "lit", .. })`
+                            Some(lit_of(body).unwrap_or_else(|| format!("opaque:{}", canon(body))))
+                        } else if canon(body) == "None" {
                             None
                         } else if let syn::Expr::Call(c) = body {
                             if canon(&c.func) == "Some" && c.args.len() == 1 {
@@ -191,6 +237,16 @@ pub fn extract(srcs: &Sources) -> R<String> {
                     };
                     froms.push((src.clone(), by_ref, variant, payload));
                 }
+            }
+        }
+    }
+    // `impl From<&T>` written as `Self::from(t.clone())`: what the owned conversion of the same source type builds
+    let owned: Vec<(String, String, String)> = froms.iter().filter(|(_, r, v, _)| !*r && v != "from").map(|(s, _, v, p)| (s.clone(), v.clone(), p.clone())).collect();
+    for f in froms.iter_mut() {
+        if f.2 == "from" && f.3 == "arg" {
+            if let Some((_, v, p)) = owned.iter().find(|(s, _, _)| *s == f.0) {
+                f.2 = v.clone();
+                f.3 = p.clone();
             }
         }
     }
